@@ -196,3 +196,34 @@ def gen_c03(rng: random.Random, big: bool):
             names.update(ln["ds"])
     base = {n: conj[n] for n in names if conj.get(n)}
     return body, base, True
+
+
+def gen_tables(rng: random.Random, big: bool):
+    """Acyclic table sets beyond the TLC universe: up to 6 mothers, up to 6 lines, up to 5 daughters,
+    repeated decaying daughters, empty blocks, decaying aliases (two aliases of one particle included)."""
+    nm = rng.randint(1, 6 if big else 4)
+    mothers = [f"P{i}" for i in range(nm)]
+    leaves = [f"d{i}" for i in range(4)]
+    src = []
+    for i, m in enumerate(mothers):
+        lower = mothers[i + 1:]
+        lines = []
+        for _ in range(rng.choice([0, 1, 2, 3, 4, 6] if big else [0, 1, 2, 4])):
+            ds = []
+            for _ in range(rng.randint(0, 5 if big else 3)):
+                ds.append(rng.choice(lower) if lower and rng.random() < 0.5 else rng.choice(leaves))
+            if lower and rng.random() < 0.3:
+                x = rng.choice(lower)
+                ds += [x, x]
+            lines.append({"bf": f"n{rng.randint(1, 6)}", "ds": ds, "ph": rng.random() < 0.3, "mk": "model",
+                          "mn": f"M{rng.randint(1, 3)}", "ps": _params(rng, 2, ["w0", "w1"], ["n1", "n2"])})
+        src.append({"k": "Decay", "m": m, "lines": lines})
+    rng.shuffle(src)
+    # aliases: decaying names shown under the particle they alias; sometimes two aliases of the same particle
+    targets = ["T0", "T1"]
+    for m in mothers[1:]:
+        if rng.random() < 0.4:
+            src.insert(rng.randint(0, len(src)), {"k": "Alias", "m": m, "src": rng.choice(targets)})
+    if rng.random() < 0.3:
+        src.append({"k": "Alias", "m": rng.choice(leaves), "src": "T2"})
+    return src, mothers
